@@ -174,3 +174,87 @@ for _fp1, _fp2, _k2 in (((2, 2), (1, 1), False), ((3, 3), (1, 2), True), ((1, 1)
         uses={"TileGrid.mark_occupied": mark_callee},
         dynamic_types={"self": _TG_T}, properties=("C08",), min_obligations=1, no_replay=True, note=f"footprints {_fp1} and {_fp2}"))
 CONTRACTS.append(mark_callee)
+
+
+# =================================================================================================
+# RelayNetwork.route_signal (with _find_path_through_existing_relays, _plan_and_create_relay_path, _find_or_create_relay_near,
+# _create_relay_directed, _finalize_relay_creation) — the C08 statement itself, at function level:
+#   the path returned bridges source and sink: EVERY hop (source -> first relay, relay -> relay, last relay -> sink) is within the
+#   span limit; endpoints within the limit need no relay; every relay on the path carries THIS network on the path's colour and no
+#   other network on that colour (so a relay never joins two circuit networks); every relay created stands on a tile that was free
+#   and is recorded in the plan; when no path exists the result is None (the caller flags the layout attempt as failed).
+# Evaluated on the REAL methods with real TileGrid / LayoutPlan objects over an enumerated box (distances 5..60 in eight directions,
+# free and partly blocked ground, earlier routes of the same / another network on the same / the other colour): bounded.
+# =================================================================================================
+RSQ = "dsl_compiler/src/layout/connection_planner.py::RelayNetwork.route_signal"
+
+
+def _route_post(a, res):
+    import math
+    me, sc = a.self, a.self._scenario
+    span = me.span_limit
+    if res is None:
+        # refusal is allowed on obstructed ground (the layout is retried); on FREE ground a path always exists and must be found
+        return not sc["free"]
+    by_id = {n.entity_id: n for n in me.relay_nodes.values()}
+    pts = [a.source_pos] + [by_id[rid].position for rid, _c in res if rid in by_id] + [a.sink_pos]
+    if len(pts) != len(res) + 2:
+        return False              # a relay on the path is not registered
+    if any(math.dist(p, q) > span + 1e-9 for p, q in zip(pts, pts[1:])):
+        return False              # a hop out of reach
+    for rid, colour in res:
+        node = by_id[rid]
+        nets = node.networks_red if colour == "red" else node.networks_green
+        if colour != a.wire_color or a.network_id not in nets or len(nets) != 1:
+            return False          # wrong colour / not registered / two networks on one colour of one relay
+        if rid not in sc["existing"] and rid not in me.layout_plan.entity_placements:
+            return False          # created but not in the plan
+        if rid not in sc["existing"]:
+            tile = (int(math.floor(node.position[0])), int(math.floor(node.position[1])))
+            if tile in sc["blocked"]:
+                return False      # placed on an occupied tile
+    return True
+
+
+route_signal_box = Contract(qualname=RSQ, params={"self": ty.TOpaque("relays"), "source_pos": ty.TOpaque("p"), "sink_pos": ty.TOpaque("q"), "signal_name": ty.Str, "wire_color": ty.Str,
+                                                  "network_id": ty.Int},
+                            ensures=[("every hop within the span; every relay carries this network alone on this colour; new relays on free tiles, recorded in the plan; on free ground a path is always found", _route_post)],
+                            verify=False, properties=("C08", "C12"), note="evaluated on the real method over an enumerated box (bounded stand-in)")
+CONTRACTS.append(route_signal_box)
+
+
+def route_signal_arg_sets():
+    import itertools
+    from dsl_compiler.src.common.diagnostics import ProgramDiagnostics
+    from dsl_compiler.src.layout.connection_planner import RelayNetwork
+    from dsl_compiler.src.layout.layout_plan import LayoutPlan
+    from dsl_compiler.src.layout.tile_grid import TileGrid
+    out = []
+    dirs = [(1, 0), (0, 1), (1, 1), (-1, 0), (0, -1), (-1, 1), (2, 1), (1, -3)]
+    for dist, (dx, dy), ground, prior in itertools.product((5, 9, 10, 17, 28, 45, 60), dirs, ("free", "wall", "scattered"), ("none", "same-net", "other-net-same-colour", "other-net-other-colour")):
+        import math
+        norm = math.hypot(dx, dy)
+        src = (50.5, 50.5)
+        snk = (50.5 + dist * dx / norm, 50.5 + dist * dy / norm)
+        grid, plan = TileGrid(), LayoutPlan()
+        blocked = set()
+        if ground == "wall":      # a wall of occupied tiles across the straight line, 3 tiles thick
+            mid = ((src[0] + snk[0]) / 2, (src[1] + snk[1]) / 2)
+            for i in range(-4, 5):
+                for t in range(-1, 2):
+                    tile = (int(mid[0] - dy / norm * i + dx / norm * t), int(mid[1] + dx / norm * i + dy / norm * t))
+                    blocked.add(tile)
+        elif ground == "scattered":
+            for k in range(0, int(dist), 2):
+                blocked.add((int(src[0] + k * dx / norm), int(src[1] + k * dy / norm)))
+        for tile in blocked:
+            grid.mark_occupied(tile, (1, 1))
+        rn = RelayNetwork(grid, {}, {}, 9.0, plan, ProgramDiagnostics(log_level="error"))
+        existing = set()
+        if prior != "none":
+            colour, net = {"same-net": ("red", 7), "other-net-same-colour": ("red", 8), "other-net-other-colour": ("green", 8)}[prior]
+            rn.route_signal(src, snk, "signal-P", colour, net)
+            existing = {n.entity_id for n in rn.relay_nodes.values()}
+        rn._scenario = {"blocked": blocked, "existing": existing, "free": ground == "free"}
+        out.append({"self": rn, "source_pos": src, "sink_pos": snk, "signal_name": "signal-S", "wire_color": "red", "network_id": 7})
+    return out
